@@ -100,10 +100,23 @@ func (p TEPart) ValidateTokenExchangeRequest(_ context.Context, r op.TokenExchan
 	if !ok { // not a token of this store (id_token, third party token): judge by the requesting client
 		client = r.GetClientID()
 	}
+	// policy of the reference storage: an ACCESS token presented as subject or actor token must still be
+	// live (known, not expired, not revoked) - the framework cannot know this for opaque tokens
+	if r.GetExchangeSubjectTokenType() == oidc.AccessTokenType {
+		if _, err := s.liveToken(r.GetExchangeSubjectTokenIDOrToken()); err != nil {
+			return oidc.ErrInvalidRequest().WithDescription("subject token is not live")
+		}
+	}
+	if r.GetExchangeActorTokenType() == oidc.AccessTokenType && r.GetExchangeActorTokenIDOrToken() != "" {
+		if _, err := s.liveToken(r.GetExchangeActorTokenIDOrToken()); err != nil {
+			return oidc.ErrInvalidRequest().WithDescription("actor token is not live")
+		}
+	}
 	switch {
 	case r.GetExchangeSubject() == BlockedUser, r.GetSubject() == BlockedUser:
 		return oidc.ErrInvalidRequest().WithDescription("subject is blocked")
-	case slices.Contains(s.Terminated, [2]string{r.GetExchangeSubject(), client}):
+	case r.GetExchangeSubjectTokenType() == oidc.IDTokenType && slices.Contains(s.Terminated, [2]string{r.GetExchangeSubject(), client}):
+		// ID tokens are stateless: the storage vetoes hints of a session it has terminated
 		return oidc.ErrInvalidRequest().WithDescription("session of the subject token was terminated")
 	}
 	return nil
